@@ -309,3 +309,45 @@ func VH_C19_custom() {
 		vAssert(pe.pos.col == wc, "column-is-the-column-of-the-offset")
 	}
 }
+
+// multi-byte tokens of the grammar itself (full-width operators, CJK
+// advantage / disadvantage keywords) matched before the error on the same line
+var vC19LiteralSources = []string{
+	"(1 ＋ ", "(1 / d20优势 % ", "[1 － 2, (", "(2 ＊ 3 ／ ", "(d20劣势 + ", "(1 + 2d20优势 * ", "{a: 1 ＋ 2, b: (", "(d20優勢 - ", "(d20劣勢 ＋ ", "(1 ＋ 2 ＋\n 3 ＋ (",
+}
+
+func init() {
+	vHarnesses["VH_C19_literals"] = VH_C19_literals
+}
+
+//vh:prop=C19 tiers=quick,thorough sigkeys=src,lang budget_s=600 bounds="10 rejected texts in which multi-byte tokens of the grammar itself (full-width + - * /, the CJK advantage / disadvantage keywords in both scripts) are matched before the error, 3 languages: offset within the input, line and column those of the offset by the oracle's definition, caret under that column"
+func VH_C19_literals() {
+	src := vC19LiteralSources[vChoice("src", len(vC19LiteralSources))]
+	vm := NewVM()
+	vm.Config.ParseErrorLanguage = vChoice("lang", 3)
+	err := vm.Parse(src)
+	vReach("parsed")
+	vAssert(err != nil, "ill-formed-source-is-rejected")
+	if err == nil {
+		return
+	}
+	el, ok := err.(errList)
+	if !ok {
+		return
+	}
+	b := []byte(src)
+	for _, e := range el {
+		pe, ok := e.(*parserError)
+		if !ok {
+			continue
+		}
+		off := pe.pos.offset
+		vAssert(off >= 0 && off <= len(b), "offset-within-input")
+		wl, wc := vLineCol(b, off)
+		if off < len(b) && b[off] == '\n' {
+			continue // recorded finding: an error at a newline byte
+		}
+		vAssert(pe.pos.line == wl, "line-is-the-line-of-the-offset")
+		vAssert(pe.pos.col == wc, "column-is-the-column-of-the-offset")
+	}
+}
